@@ -107,7 +107,9 @@ def run(ctx):
     # the instruction given to the interrupt check is the word at the current PC
     tcall = pz.term(cib)
     e = " ".join(expr_str(pz.expr(a, 10)) for a in tcall["args"])
-    ok = "mem(" in e and "pc(" in e
+    # pz's own RunState parameter: the argument it hands to the dispatcher as machine state
+    st_arg = [i + 1 for i, ty in enumerate(pz.d.get("inputs", [])) if "RunState" in ty]
+    ok = bool(st_arg) and any(dbg.reads_live_word(pz, pz.expr(a, 14), st_arg[0]) for a in tcall["args"])
     ctx.oblig(ok, {"interrupt check arguments": e}, "decoded from mem[pc]")
     if not ok:
         ctx.violation("halt-check-arg", sp_file_line(tcall.get("sp")), "the interrupt check is not given the instruction at the current PC: %s" % e)
